@@ -471,10 +471,17 @@ func newResult() *result {
 func runPhase(bin, phase string, res *result) {
 	var wg sync.WaitGroup
 	var mu sync.Mutex
+	par := runtime.NumCPU()
+	if par > 16 {
+		par = 16
+	}
+	sem := make(chan struct{}, par)
 	for s := 0; s < nshards; s++ {
 		wg.Add(1)
 		go func(s int) {
 			defer wg.Done()
+			sem <- struct{}{}
+			defer func() { <-sem }()
 			runShard(bin, s, phase, res, &mu)
 		}(s)
 	}
